@@ -72,8 +72,8 @@ def execute_all(cases, **kw):
     return out
 
 
-def replay_case(line):
-    out = common.run_workers([line])[0]
+def replay_case(line, backend="snarkjs"):
+    out = common.run_workers([line], backend)[0]
     ml = common.lean_driver([line])[0]
     print("impl :", out[:3000])
     print("model:", ml[:3000])
@@ -94,3 +94,21 @@ def corpus_cases(pid):
             out.append(progs.Case(f"corpus-{os.path.basename(f)}-{n}", cfg, [t for t in fld[3].split(";") if t.strip()],
                                   {"shape": "corpus", "op": os.path.basename(f)[:-5], "kinds": "*"}))
     return out
+
+
+BACKENDS = [("snarkjs", common.BN128, 0.61), ("zkinterface", common.BN128, 0.13), ("zkifbellman", common.BLS381, 0.13),
+            ("zkifbulletproofs", common.ED25519, 0.13)]
+
+
+def execute_backends(rnd, n, prefix, mix, corpus=(), keep=None):
+    """generate n programs split over every loadable in-memory backend (each with its own field) and execute them on the
+    real backend and on the model; the backend is recorded in case.meta['backend']"""
+    recs = []
+    for be, p, share in BACKENDS:
+        cases = (list(corpus) if be == "snarkjs" else []) + progs.generate(rnd, int(n * share), prefix + be[-4:], mix=mix, p=p)
+        if keep:
+            cases = [c for c in cases if keep(c)]
+        for c in cases:
+            c.meta["backend"] = be
+        recs += execute_all(cases, backend=be)
+    return recs
